@@ -130,7 +130,61 @@ print(a, b)
 sys.exit(0 if np.allclose(a, b) else 1)
 '''
 
+LOOP_BREAK = r'''
+import sys, os, tempfile, importlib.util
+import numpy as np, onnx, onnxscript
+from onnxscript import script, FLOAT
+from onnxscript import opset18 as op
+@script(default_opset=op)
+def brk(x: FLOAT[2]) -> FLOAT[2]:
+    acc = x
+    for i in range(5):
+        acc = acc + x
+        c = op.ReduceSum(acc, keepdims=0) > 20.0
+        if c:
+            break
+    return acc
+m = brk.to_model_proto()
+code = onnxscript.proto2python(m)
+d = tempfile.mkdtemp(); path = os.path.join(d, "brk_case.py"); open(path, "w").write(code)
+spec = importlib.util.spec_from_file_location("brk_case", path); mod = importlib.util.module_from_spec(spec); sys.modules["brk_case"] = mod
+try:
+    spec.loader.exec_module(mod)
+except Exception as e:
+    print("a script function with `for ... : ...; if c: break` converts to a model, but the source proto2python returns for that model does not load:",
+          type(e).__name__, str(e).splitlines()[0][:170])
+    sys.exit(1)
+sys.exit(0)
+'''
+
+INLINE_LOOP = r'''
+import sys, os, tempfile, importlib.util
+import numpy as np, onnx, onnxscript
+from onnxscript import script, FLOAT
+from onnxscript import opset18 as op
+@script(default_opset=op)
+def const_bound(x: FLOAT[2]) -> FLOAT[2]:
+    acc = x
+    for i in range(3):
+        acc = acc + x
+    return acc
+m = const_bound.to_model_proto()
+code = onnxscript.proto2python(m, inline_const=True)
+d = tempfile.mkdtemp(); path = os.path.join(d, "il_case.py"); open(path, "w").write(code)
+spec = importlib.util.spec_from_file_location("il_case", path); mod = importlib.util.module_from_spec(spec); sys.modules["il_case"] = mod
+try:
+    spec.loader.exec_module(mod)
+except Exception as e:
+    print("proto2python(model with `for i in range(3)`, inline_const=True): the exported script does not load:", type(e).__name__, str(e).splitlines()[0][:140])
+    sys.exit(1)
+sys.exit(0)
+'''
+
 def replay(ob):
+    if "loop.break_is_printed" in ob["name"]:
+        return LOOP_BREAK
+    if "loop.header_reads_values" in ob["name"]:
+        return INLINE_LOOP
     if "name_remapping_scope" in ob["name"]:
         return LOOP_MODEL
     if "graph_signature.parameters" in ob["name"]:
